@@ -229,6 +229,14 @@ func c19(r *eng.Run) {
 			addF(m + "e" + strconv.Itoa(q))
 		}
 	}
+	for _, z := range []int{1, 5, 18, 19, 20, 31, 32, 33, 64, 100, 400} {
+		for _, m := range []string{"1", "0", "1.5", "9007199254740993"} {
+			addF(m + "e" + strings.Repeat("0", z) + "5")
+			addF(m + "E-" + strings.Repeat("0", z) + "12")
+			addF("0e" + strings.Repeat("9", z))
+			addF(m + "e-" + strings.Repeat("9", z+3))
+		}
+	}
 	for _, be := range []int{1, 2, 52, 500, 1000, 1023, 1024, 1500, 2000, 2045, 2046} {
 		for _, m := range []uint64{0, 1, 1<<52 - 1, 0x5555555555555} {
 			bits := uint64(be)<<52 | m
